@@ -331,7 +331,7 @@ def generate(ctx, escalate=False):
     return out
 
 
-SCENARIOS = ["idle", "obs", "blk", "blk0", "cli", "b2", "b2", "osc", "osc", "qb1", "qb1", "qb2", "qb2"]
+SCENARIOS = ["idle", "obs", "blk", "blk0", "cli", "b2", "b2", "osc", "osc", "qb1", "qb1", "qb2", "qb2", "qc2", "qc2", "qc2"]
 
 
 def oscore_aimed(rng):
@@ -481,8 +481,48 @@ def qblock_dgram(rng, scen):
     return G.encode("udp", typ, rng.choice([1, 1, 1, 5]), mid, tok, sorted(opts, key=lambda o: o[0]), b"")
 
 
+def qc2_dgram(rng):
+    """a response aimed at a CLIENT in the middle of a Q-Block2 transfer (scenario qc2: GET /L, token abcd, body of 100 bytes = blocks
+    0..6 of 16, ETag 01, Size2 100, MAX_PAYLOADS 10; blocks 0 and 2 received): blocks out of order / duplicated / beyond the end /
+    at the end of the number space, SZX, ETag, Size2, Content-Format changing or missing, M bits contradicting the sizes, payload
+    set boundaries (9, 10, 11, 19, 20), Block2 and Q-Block2 mixed, other response codes"""
+    tok = rng.choice([b"\xab\xcd"] * 6 + [bytes.fromhex("200000000001"), bytes.fromhex("200000000002"), G.rbytes(rng, rng.randint(0, 8))])
+    szx = rng.choice([0, 0, 0, 0, 0, 1, 2, 6, 7])
+    bs = 16 << min(szx, 6)
+    num = rng.choice([0, 1, 1, 3, 4, 5, 6, 6, 7, 8, 9, 10, 11, 19, 20, 63, 1000, 2 ** 20 - 2, 2 ** 20 - 1])
+    m = rng.choice([1, 1, 0]) if num != 6 else rng.choice([0, 0, 1])
+    v = ((num << 4) | (m << 3) | szx).to_bytes(3, "big").lstrip(b"\0")
+    opts = [(rng.choice([31] * 8 + [23, 27]), v)]
+    c = rng.random()
+    if c < 0.7:
+        opts.append((4, b"\x01"))
+    elif c < 0.85:
+        opts.append((4, rng.choice([b"\x02", b"", b"\x01\x00", G.rbytes(rng, rng.randint(1, 8))])))
+    c = rng.random()
+    if c < 0.6:
+        opts.append((28, b"\x64"))
+    elif c < 0.85:
+        opts.append((28, rng.choice([99, 101, 112, 113, 16, 0, 2 ** 24, 2 ** 24 + 1, 2 ** 30, 2 ** 32 - 1, (num + 1) * bs, (num + 1) * bs + 1]).to_bytes(4, "big").lstrip(b"\0")))
+    if rng.random() < 0.6:
+        opts.append((12, b"" if rng.random() < 0.8 else rng.choice([b"\x2a", b"\x01\x10"])))
+    if rng.random() < 0.08:
+        opts.append((23, ((rng.randint(0, 7) << 4) | (rng.randint(0, 1) << 3) | rng.choice([0, 1])).to_bytes(2, "big").lstrip(b"\0")))
+    if rng.random() < 0.06:
+        opts.append((6, G.rbytes(rng, rng.randint(0, 3))))
+    if rng.random() < 0.05:
+        opts.append((252, G.rbytes(rng, rng.randint(0, 4))))
+    last = 4 if num == 6 and szx == 0 else bs
+    pl = G.rbytes(rng, rng.choice([last, last, last, bs, bs - 1, bs + 1, 1, 0, 2 * bs]) if bs <= 256 else rng.choice([bs, 16, 4, 0]))
+    code = rng.choice([69] * 10 + [68, 65, 95, 132, 136, 128, 160, 162])
+    return G.encode("udp", rng.choice([1, 1, 1, 1, 0, 2]), code, rng.randint(0, 0xFFFF), tok, sorted(opts, key=lambda o: o[0]), pl)
+
+
 def targeted(rng, scen):
     """a datagram aimed at the state the scenario set up: matching token/mid/paths, hostile option values"""
+    if scen == "qc2":
+        if rng.random() < 0.85:
+            return qc2_dgram(rng)
+        scen = "cli"
     if scen in ("qb1", "qb2"):
         if rng.random() < 0.8:
             return qblock_dgram(rng, scen)
@@ -555,7 +595,25 @@ def gen_sequences(ctx, n):
     out = []
     for i in range(n):
         scen = rng.choice(SCENARIOS)
-        if scen != "cli" and rng.random() < 0.12:
+        if scen == "qc2":
+            # a client in mid Q-Block2: crafted responses, the server's genuine datagrams `@k` replayed in any order, mutations
+            ds = []
+            for _ in range(rng.choice([1, 2, 3, 5, 8, 12])):
+                c = rng.random()
+                if c < 0.3:
+                    ds.append("@%d" % rng.choice([0, 1, 1, 2, 3, 4, 5, 6, 6]))
+                elif c < 0.75:
+                    ds.append(hx(targeted(rng, scen)))
+                elif c < 0.95:
+                    b = targeted(rng, scen)
+                    for _ in range(rng.choice([1, 1, 2])):
+                        b = G.mutate(rng, b)
+                    ds.append(hx(b[:1400]))
+                else:
+                    ds.append(hx(G.rbytes(rng, rng.choice([0, 1, 3, 4, 5, 8, 13, 40]))))
+            out.append("hseq qc2 %d same %s" % (rng.choice([0, 7, 8]), ";".join(ds)))
+            continue
+        if scen not in ("cli", "qc2") and rng.random() < 0.12:
             out.append("hseq %s %d %s %s" % (scen, rng.choice([0, 7]), rng.choice(["same", "other"]), ";".join(hx(b) for b in block_storm(rng))))
             continue
         ds = []
